@@ -33,6 +33,18 @@ NA_PURE = {
 }
 
 
+def level_note(m):
+    """What a clean batch of this check does and does not say: rules judged, real vs stub components, assumptions."""
+    rules = '; '.join('%s = %s' % (k, v) for k, v in sorted(getattr(m, 'RULES', {}).items()))
+    wi = getattr(m, 'WORLD_INFO', {})
+    out = 'Rules: %s. Real driver code: %s. Stubs: %s.' % (rules, '; '.join(wi.get('real', [])), '; '.join(wi.get('stub', [])))
+    if getattr(m, 'ASSUMPTIONS', None):
+        out += ' Assumptions: %s.' % '; '.join(m.ASSUMPTIONS)
+    out += (' Trusted base: dsim primitives, simulated libev/sockets, independent fake-Cassandra codec; pre-emption at synchronisation points '
+            'and at source-line granularity only (thread-stall faults at those lines). Sampling, not enumeration: a clean batch is evidence, not proof.')
+    return out[:3800]
+
+
 def main():
     props = [json.loads(l) for l in open(os.path.join(HERE, 'properties.jsonl'))]
     checks = []
@@ -64,8 +76,7 @@ def main():
                                                  'simulator; every run is replayable from its seed; a clean batch is evidence, not proof.'),
                 'design_ref': 'DESIGN.md section 7, ' + pid,
             },
-            'level_note': getattr(m, 'LEVEL_NOTE', 'Trusted base: dsim primitives, simulated libev/sockets, independent fake-Cassandra codec; '
-                                                   'pre-emption at synchronisation points and at source-line granularity only.'),
+            'level_note': getattr(m, 'LEVEL_NOTE', None) or level_note(m),
         })
     man = {
         'version': 1,
